@@ -9,18 +9,21 @@
    function of the number of queued messages and of the table size.  [Ok (st', false)] with [at_prompt st'] means: no
    exit, no abort, no memory error, no hang, the three lists empty -- the prompt is printed next.
 
-   FULL    : C19_always_answers / C19_wf_power / C19_sequence (ANY number of targets on a line, any depth, any failing hosts,
-             any release schedule: termination with the model's own fuel, exactly one result line per targeted known plug,
-             one report per unknown name, no lost waiter, prompt and well-formedness restored; composes over sessions),
-             C19_rules_single and its corollaries (one target: the printed line and the statuses ARE the documented ones),
+   FULL    : C19_rules (ANY number of targets on a line -- duplicates, unknown names, related targets, several roots, targets
+             below failing hosts --, any depth, any release schedule: the TEXT of every result line and the status table
+             afterwards are the ones of Spec/RedfishSpec.expected, as a multiset of lines and plug by plug),
+             C19_always_answers / C19_wf_power / C19_sequence (termination with the model's own fuel, exactly one result line per
+             targeted known plug, one report per unknown name, no lost waiter, prompt and well-formedness restored; composes
+             over sessions), C19_rules_single and its corollaries (one target: the line itself, not only the multiset),
              C19_on_parent_and_child_refused (any number of targets), C19_survives_* (error reports), C19_dangling_ancestor.
-   OPEN    : the TEXT of the result lines and the status table for SEVERAL targets on one line (C19_rules below, in a comment).
+   OPEN    : nothing of the property text (what the model abstracts is listed at the head of Model/Redfish.v).
    REFUTED : with the F20 repair flags false a waiter is lost (C19_no_lost_waiter_needs_repair). *)
 From Coq Require Import List NArith ZArith Bool Permutation.
 From PM Require Import Base.Bytes Base.Outcome Gen.GenRfp Model.Redfish Spec.RedfishSpec Model.RedfishView
   Proofs.RedfishBase Proofs.RedfishSteps Proofs.RedfishSingle Proofs.RedfishMgmt Proofs.RedfishRules Proofs.RedfishTheorems
   Proofs.RedfishPhased Proofs.RedfishFaults Proofs.RedfishReach Proofs.RedfishExamples
-  Proofs.RedfishInv Proofs.RedfishLive Proofs.RedfishDrain Proofs.RedfishStart Proofs.RedfishMulti Proofs.RedfishSmall.
+  Proofs.RedfishInv Proofs.RedfishLive Proofs.RedfishDrain Proofs.RedfishStart Proofs.RedfishMulti Proofs.RedfishSmall
+  Proofs.RedfishEff Proofs.RedfishText Proofs.RedfishClosed Proofs.RedfishRulesMulti.
 Import ListNotations.
 
 (* ------------------------------------------------------------------------------------------------------------------
@@ -233,7 +236,7 @@ Print Assumptions C19_no_lost_waiter_unqueryable_root.
 (* ------------------------------------------------------------------------------------------------------------------
    Where the hypotheses [at_prompt] and [ts_covers] come from: they hold when the helper starts and are kept by every
    line that is not stat/on/off and by every single-target stat/on/off line inside the domain of the rules.
-   (Kept by several-target lines: part of the OPEN statement below.) *)
+   (Kept by several-target lines as well: C19_wf_power below.) *)
 Theorem C19_wf_init : forall hosts fail v, ts_covers (init hosts fail v) /\ at_prompt (init hosts fail v).
 Proof. exact RedfishReach.ts_covers_init. Qed.
 Print Assumptions C19_wf_init.
@@ -315,30 +318,61 @@ Qed.
 Print Assumptions C19_sequence.
 
 (* ------------------------------------------------------------------------------------------------------------------
-   (* OPEN *)  The refinement for SEVERAL targets on one line:
+   The refinement for SEVERAL targets on one line (the last statement of DESIGN.md section 5 C19 to be proved): for ANY target
+   list (duplicates, unknown names, ancestors together with their descendants, several roots, targets below failing hosts),
+   any depth, ANY release schedule of the delayed polls, the helper returns to its prompt with the configuration untouched,
+   the result lines it printed ARE the lines of Spec/RedfishSpec.expected (as a multiset: the helper answers level by level,
+   the specification target by target) and the status of every plug afterwards is the one of RedfishSpec.expected.
+   This covers, for several targets at once, every sentence of the property text: a descendant of an ancestor that is not on
+   reports that ancestor's state; `on` below a non-on ancestor is refused naming the dependency; `off` below an off ancestor
+   is ok; `on` for an ancestor and its descendant together refuses all targets; powering a parent off leaves its descendants
+   off -- and a target below a targeted ancestor of the same `off` line is answered "ok" through that ancestor's own result.
+   Proof: Proofs/RedfishEff.v (closed form of the rules for a whole target list: [seff a] = what a handler on plug a reports
+   to the waiters below it -- error for a failing host, the state the command puts a targeted plug in, the status before the
+   command otherwise; [sline] = the line of a target; [sfinal] = the final status), Proofs/RedfishText.v (the loop invariant of
+   RedfishLive.v refined: every live message sits below ancestors that all report on; a silent ancestor query never sits on a
+   targeted plug of an on/off line -- for `on` because no pending message is above a waiter, for `off` because
+   plugname_active() finds the operation on that plug; the status table differs from the one before the command exactly at
+   the operations carried out and, for off, their descendants; every printed line is [sline] of its plug),
+   Proofs/RedfishClosed.v (RedfishSpec.expected = the closed form: the depth order of the specification makes the cascade of
+   a targeted ancestor visible to the targets below it), Proofs/RedfishRulesMulti.v. *)
+Theorem C19_rules : forall hlc st ln sched c ts,
+  at_prompt st -> ts_covers st -> power_line hlc st ln = Some (c, ts) -> in_domain st c ts = true -> closed_tab (s_tab st) = true ->
+  exists st', run_line hlc st ln sched = Ok (st', false) /\ at_prompt st' /\ same_cfg st' st /\
+              Permutation (map snd (results st')) (fst (expected_of st c ts)) /\
+              same_status (statmap_of (s_tstat st')) (snd (expected_of st c ts)).
+Proof. exact rules_multi. Qed.
+Example C19_rules_nonvacuous :
+  (* three levels, R, M, L on; `off L,R,T,nosuch,L`: L (twice) below its targeted ancestor R, T below the failing host's S, an
+     unknown name; polls released one per pass.  And `on T,M` with everything off: two unrelated targets, both refused for
+     different reasons. *)
+  at_prompt ex_on /\ ts_covers ex_on /\ closed_tab (s_tab ex_on) = true /\
+  power_line ex_hlc ex_on (bs "off L,R,T,nosuch,L"%string) = Some (COff, [bs "L"; bs "R"; bs "T"; bs "nosuch"; bs "L"]%string) /\
+  in_domain ex_on COff [bs "L"; bs "R"; bs "T"; bs "nosuch"; bs "L"]%string = true /\
+  fst (expected_of ex_on COff [bs "L"; bs "R"; bs "T"; bs "nosuch"; bs "L"]%string) =
+    [bs "unknown plug specified: nosuch"%string ++ [LF]; bs "R: ok"%string ++ [LF];
+     bs "T: cannot perform off, dependency error (host=h3 plug=S)"%string ++ [LF]; bs "L: ok"%string ++ [LF]; bs "L: ok"%string ++ [LF]] /\
+  (exists st', run_line ex_hlc ex_on (bs "off L,R,T,nosuch,L"%string) [0; 1; 0; 1]%nat = Ok (st', false) /\
+     out_text st' = [bs "unknown plug specified: nosuch"%string ++ [LF]; bs "T: cannot perform off, dependency error (host=h3 plug=S)"%string ++ [LF];
+                     bs "R: ok"%string ++ [LF]; bs "L: ok"%string ++ [LF]; bs "L: ok"%string ++ [LF]] /\
+     st_get (statmap_of (s_tstat st')) (bs "M"%string) = StOff) /\
+  in_domain ex_off COn [bs "T"; bs "M"]%string = true /\
+  fst (expected_of ex_off COn [bs "T"; bs "M"]%string) =
+    [bs "T: cannot perform on, dependency error (host=h3 plug=S)"%string ++ [LF]; bs "M: cannot perform on, dependency off (host=h0 plug=R)"%string ++ [LF]].
+Proof.
+  split; [apply at_prompt_b; reflexivity|]. split; [apply ts_covers_b; reflexivity|].
+  repeat (split; [vm_compute; reflexivity|]).
+  split; [eexists; split; [vm_compute; reflexivity|]; split; vm_compute; reflexivity|].
+  split; vm_compute; reflexivity.
+Qed.
+Print Assumptions C19_rules.
 
-   Theorem C19_rules : forall hlc st ln sched c ts,
-     at_prompt st -> ts_covers st -> power_line hlc st ln = Some (c, ts) -> in_domain st c ts = true -> closed_tab (s_tab st) = true ->
-     exists st', run_line hlc st ln sched = Ok (st', false) /\ at_prompt st' /\ same_cfg st' st /\
-                 Permutation (map snd (results st')) (fst (expected_of st c ts)) /\
-                 same_status (statmap_of (s_tstat st')) (snd (expected_of st c ts)).
-
-   PROVED of it: termination, prompt, same_cfg, exactly one result line per targeted known plug, no lost waiter, for every
-   target list and release schedule (C19_always_answers: C19_terminates / C19_one_line_each / C19_no_lost_waiter of DESIGN.md
-   section 5); the full statement for one target at any depth (C19_rules_single); `on` with an ancestor/descendant pair among
-   any number of targets (C19_on_parent_and_child_refused); all targets unknown (C19_survives_unknown_plugs).
-   MISSING: that the TEXT of each of those lines and the final status table are the ones of RedfishSpec.expected when there
-   are several targets: the invariant of Proofs/RedfishLive.v has to be refined by "every ancestor above a waiter's handler
-   answered on, and stays on until the waiter is released" (false for off with related targets, where the cascade of an
-   ancestor target decides -- the spec orders targets by depth for that reason).  Until then the text of several-target
-   lines rests on the R-RFP correspondence and the small-scope sweep of props/C19.py, with the extracted
-   RedfishSpec.expected as the monitor; the example below is a computation, not the theorem. *)
-(* C19_rules_partial: the OPEN statement decided by computation inside Coq (vm_compute over the model and Spec/RedfishSpec.v) on a
+(* C19_rules_partial: the statement of C19_rules decided, before it was proved, by computation inside Coq (vm_compute over the model and Spec/RedfishSpec.v) on a
    small scope: the three example states (three levels R -> M -> L, second root S -> T below a failing host; all off / R,M on /
    R,M,L on) x stat/on/off x EVERY target list of length 1-2 over the five plugs and one unknown name and every list of length 3
    over R,M,L,T (all orders, repetitions), under a slow release schedule: Ok, prompt, the printed lines are a permutation of
-   RedfishSpec.expected, the status of every plug is the expected one.  What is missing for C19_rules: the same for arbitrary
-   tables, states and target lists (see above). *)
+   RedfishSpec.expected, the status of every plug is the expected one.  Kept as an independent cross-check of C19_rules on
+   concrete runs (a computation, where C19_rules is a proof). *)
 Theorem C19_rules_partial : forall st c ts sched,
   In st scope_states -> In c scope_cmds -> In ts scope_lists -> In sched scope_scheds ->
   in_domain st c ts = true /\
